@@ -33,7 +33,7 @@ certificate (bit flip in TBS bytes, bit flip in signature value, sibling issuer 
 key, time just outside the window, AKI replaced and re-signed, SKI replaced in the TBS by DER patching and re-signed \
 with the issuer key, one claimed block replaced by one outside the issuer, notBefore/notAfter swapped in the TBS \
 (empty window) and re-signed, evaluated between the ends); oracle = rejected, except block tamper \
-under trim = accepted with the intersection; every tamper case is non-trivial. Alternative routes: every verdict is also obtained through inspect_*(strict) followed by verify_*_at and, for trust anchors, verify_ta_ref_at - same accept/reject, same resources; the claimed resources reach the certificate through one of four public routes chosen by the serial number (closure builders, *_from_iter, ready-made IpResources/AsResources values incl. missing()/inherit(), resource builders obtained through Default).";
+under trim = accepted with the intersection; every tamper case is non-trivial. Alternative routes: every verdict is also obtained through inspect_*(strict) followed by verify_*_at and, for trust anchors, verify_ta_ref_at - same accept/reject, same resources; the claimed resources reach the certificate through one of four public routes chosen by the serial number (closure builders, *_from_iter, ready-made IpResources/AsResources values incl. missing()/inherit(), resource builders obtained through Default). Foreign dress (der::Dress, about 60 % of the certificates, also under every tamper kind): the DER the builder produced is re-written as another conforming writer might have and signed again by the issuer - extensions in another order, unknown non-critical extensions, a CPS qualifier, further CRL-DP / SIA entries, AS numbers as one-element ranges, algorithm identifiers without NULL, the IP families in reverse order, resource lists reversed / with a repeated entry / with a range or prefix cut into pieces (same set); for dressed certificates only 'accepted => the model accepts and the validated resources are the model's' is demanded (a refusal is counted).";
 
 //------------ private interval-set model ---------------------------------------
 
